@@ -14,7 +14,17 @@
 (*   StructuralRuleOK the modelled structural rule (reciprocal scalar /    *)
 (*                    reciprocal diagonal / inverse permutation / the      *)
 (*                    identity itself) applied to b equals x;              *)
-(*   Emit             prints {id, A, b, x}.                                *)
+(*   Emit             prints {id, A, b, x, law}.                           *)
+(*   ScalingLawOK     LeastSquares!PinvScalingLaw: pinv(c A) b = pinv(A) b / c  *)
+(*                    for every scale c listed with the case (optional     *)
+(*                    field `scales`: Gaussian rationals for which the      *)
+(*                    scaled normal equations stay within 32 bits, e.g.     *)
+(*                    2, -3, 1/2, 10, 1/10, i, 1000, 1/1000 ...).  The      *)
+(*                    harness applies the law with c = 1e-7 and 1e3, which  *)
+(*                    are not representable: expected x_c = x / c.          *)
+(*                    (field `lawpow`, default 1, exists only for the       *)
+(*                    negative control: the claim x / c^lawpow with         *)
+(*                    lawpow # 1 must be rejected.)                         *)
 (***************************************************************************)
 EXTENDS LeastSquares, PinvCatalog, Json, TLC
 
@@ -59,5 +69,13 @@ CatalogOK ==
     /\ MEq(KindDense, Case.A)
 MoorePenrose == phase = "solved" => IsMinNormLsq(Case.A, Case.b, X)
 StructuralRuleOK == (phase = "solved" /\ Case.kind # "Dense") => MEq(MMul(RuleMat, Case.b), X)
-Emit == phase = "solved" => PrintT(ToJson([id |-> Case.id, kind |-> Case.kind, A |-> Case.A, b |-> Case.b, x |-> X]))
+Scales == IF "scales" \in DOMAIN Case THEN Case.scales ELSE <<>>
+LawPow == IF "lawpow" \in DOMAIN Case THEN Case.lawpow ELSE 1
+ScalingLawOK ==
+    phase = "solved" =>
+        \A i \in 1..Len(Scales):
+            IF LawPow = 1 THEN PinvScalingLaw(Case.A, Case.b, Scales[i])
+            ELSE MEq(PinvSolve(MScale(Scales[i], Case.A), Case.b), MScale(QPow(QInv(Scales[i]), LawPow), X))
+Emit == phase = "solved" => PrintT(ToJson([id |-> Case.id, kind |-> Case.kind, A |-> Case.A, b |-> Case.b, x |-> X,
+                                            law |-> Len(Scales)]))
 =============================================================================
